@@ -36,6 +36,32 @@ Theorem C08_published_ids_unique : forall self listing bs,
 Proof. exact published_ids_unique. Qed.
 Print Assumptions C08_published_ids_unique.
 
+(* Histories that also contain the node's own state changes (UpdateClusterState) and ends of the
+   watch stream followed by a new watch: the provider holds the set implied by all delivered
+   events plus the node's record carrying the state it set LAST. *)
+Theorem C08_fold_with_self_state : forall self listing (h : list hop),
+  Forall conform_ev (events_of h) ->
+  fold_hist self listing h =
+  (current_self self h, implied (current_self self h) listing (events_of h)).
+Proof. exact fold_hist_eq. Qed.
+Print Assumptions C08_fold_with_self_state.
+
+(* ... so the published self record always carries the CURRENT state (and its own id, address
+   and services), whatever events about the node itself were delivered *)
+Theorem C08_self_state_current : forall self listing h,
+  Forall conform_ev (events_of h) ->
+  In (Mb (nid self) (last_state_from (nstate self) h) (naddr self) (nsvcs self))
+     (publish (snd (fold_hist self listing h))).
+Proof. exact self_state_current. Qed.
+Print Assumptions C08_self_state_current.
+
+(* the records the node registers for itself (at start and after every state change) satisfy the
+   guard of these theorems: own key, alive *)
+Theorem C08_registration_conforms : forall self s,
+  conform_ev (EPut (nid self) (with_state (mk_self self) s)).
+Proof. exact registration_conforms. Qed.
+Print Assumptions C08_registration_conforms.
+
 (* what [implied] means for any other node: the last event about it decides *)
 Theorem C08_implied_last_event : forall self listing evs e k,
   k <> nid self ->
@@ -127,6 +153,39 @@ Theorem C08_work_names_count : forall ms n,
   zcount n (get_work_names (make_members ms)) = zcount n (spec_work_names ms).
 Proof. exact work_names_counts. Qed.
 Print Assumptions C08_work_names_count.
+
+(* the package-level getters of node/app/utils.go: first items, random picks, PIDs by name *)
+Theorem C08_first_service : forall ms t,
+  get_first (make_members ms) t = first_of (spec_list ms t) /\
+  get_first_work (make_members ms) t = first_of (spec_work ms t).
+Proof. exact first_service. Qed.
+Print Assumptions C08_first_service.
+
+(* whatever index the random generator returns, a pick is an item of the (working) list ... *)
+Theorem C08_pick_member : forall ms t i it,
+  (pick (make_members ms) t i = Some it -> In it (spec_list ms t)) /\
+  (pick_work (make_members ms) t i = Some it -> In it (spec_work ms t)).
+Proof. exact pick_member. Qed.
+Print Assumptions C08_pick_member.
+
+(* ... and nil exactly when there is no such service *)
+Theorem C08_pick_total : forall ms t,
+  (spec_list ms t <> [] -> exists it, pick (make_members ms) t 0 = Some it) /\
+  (spec_list ms t = [] -> forall i, pick (make_members ms) t i = None).
+Proof. exact pick_total. Qed.
+Print Assumptions C08_pick_total.
+
+Theorem C08_service_pid_unique : forall ms n t it,
+  unique_name ms n -> In it (spec_list ms t) -> iname it = n ->
+  get_pid (make_members ms) n = ipid it /\
+  get_work_pid (make_members ms) n = (if is_work (istate it) then ipid it else None).
+Proof. exact service_pid_unique. Qed.
+Print Assumptions C08_service_pid_unique.
+
+(* the executable laws used by the monitor for these getters hold of the model for every list *)
+Theorem C08_ext_laws : forall ms, ext_ok_spec ms (ext_of (make_members ms)) = true.
+Proof. exact ext_spec_sound. Qed.
+Print Assumptions C08_ext_laws.
 
 (* ------------------------------------------------------------------ part C: readers *)
 
@@ -277,3 +336,24 @@ Example C08_composite_can_mix :
   answer_of q (view pubs 1) = AItem (Some (It 1 1 1 (Some 11))) /\
   answer_of q (view pubs 2) = AItem (Some (It 5 2 1 (Some 12))).
 Proof. vm_compute. repeat split; reflexivity. Qed.
+
+(* non-vacuity of the self-state theorems: the node retires (state 2), its lease is revoked and
+   it registers again - the watch delivers DELETE self; PUT self(state 2) - then the stream ends
+   and a new watch delivers the expiry of node 1 *)
+Example C08_example_self_state :
+  let h := [HBatch [EPut 1 xn1]; HSelf 2; HBatch [EDel 0; EPut 0 (with_state xself 2)]; HRewatch;
+            HBatch [EDel 1]; HSelf 3] in
+  Forall conform_ev (events_of h) /\
+  publish (snd (fold_hist xself [xn2; with_state xself 5] h)) = [Mb 0 3 10 [Svc 1 1]; member_of xn2] /\
+  last_state_from (nstate xself) h = 3.
+Proof. vm_compute. split; [|split; reflexivity]. repeat constructor. Qed.
+
+(* non-vacuity of the driver: a start with a stale record of the node itself in the listing, a
+   failing start (undecodable listing entry), shutdown *)
+Example C08_example_run :
+  map (fun o => match o with BStart _ _ ms _ | BPub ms _ => Some ms | _ => None end)
+      (run [OStart xself [LNode xn2; LNode (with_state xself 5)]; OSelfState 2; OBatch [EDel 2];
+            OShutdown; OBatch [EDel 1]; OStart xself [LJunk]; OSelfCluster 3 (-5) [(1, 2); (2, 0)]])
+  = [Some [member_of xself; member_of xn2]; None; Some [Mb 0 2 10 [Svc 1 1]]; None; None; None;
+     Some [Mb 3 1 (-1) [Svc 2 1]]].
+Proof. vm_compute. reflexivity. Qed.
